@@ -11,7 +11,7 @@ from .strings import StrVec
 from .sbytes import SymBytes, stream_content
 from .containers import SymSet, SymDict, HashToken
 
-__all__ = ["And", "Or", "Not", "Implies", "Iff", "ite", "sym_eq", "SymCtx", "ConcCtx", "concretize_value", "eq"]
+__all__ = ["And", "Or", "Not", "Implies", "Iff", "ite", "sym_eq", "SymCtx", "ConcCtx", "concretize_value", "eq", "statement_lines"]
 
 
 def eq(a, b):
@@ -61,8 +61,84 @@ def concretize_value(model, v, depth=0):
     return {"obj": type(v).__name__}
 
 
+def statement_lines(fn):
+    """source line numbers of the statements of a python function (nested functions excluded): the points at which
+    S.preempting() can interrupt it"""
+    import ast
+    import inspect
+    import textwrap
+    fn = getattr(fn, "__func__", fn)
+    tree = ast.parse(textwrap.dedent(inspect.getsource(fn))).body[0]
+    off = fn.__code__.co_firstlineno - tree.lineno
+    out = []
+
+    def walk(stmts):
+        for st in stmts:
+            if isinstance(st, (ast.FunctionDef, ast.AsyncFunctionDef, ast.ClassDef)):
+                continue
+            out.append(st.lineno + off)
+            for field in ("body", "orelse", "finalbody"):
+                walk(getattr(st, field, []) or [])
+            for h in getattr(st, "handlers", []) or []:
+                walk(h.body)
+    walk(tree.body)
+    return sorted(set(out))
+
+
+class _Preempt:
+    """context manager: the first time `fn` is about to execute its statement on source line `lineno`, `action()` runs
+    to completion (another thread's whole operation, scheduled at that point).  Symbolic mode: a statement hook of the
+    interpreter; native mode: a line tracer on fn's code object.  Same preemption points in both modes."""
+
+    def __init__(self, S, fn, lineno, action):
+        self.S, self.fn, self.lineno, self.action = S, getattr(fn, "__func__", fn), lineno, action
+        self.fired = False
+
+    def __enter__(self):
+        code = self.fn.__code__
+        if self.S.symbolic:
+            interp = self.S.interp
+            self.prev = interp.stmt_hook
+
+            def hook(node, env):
+                if not self.fired and node.lineno == self.lineno and env.fn is not None and getattr(env.fn, "__code__", None) is code:
+                    self.fired = True
+                    interp.stmt_hook = self.prev
+                    self.action()
+            interp.stmt_hook = hook
+        else:
+            import sys
+            self.prevtrace = sys.gettrace()
+
+            def local(frame, event, arg):
+                if event == "line" and not self.fired and frame.f_lineno == self.lineno:
+                    self.fired = True
+                    sys.settrace(self.prevtrace)
+                    frame.f_trace = None
+                    self.action()
+                return local
+
+            def glob(frame, event, arg):
+                if frame.f_code is code and not self.fired:
+                    return local
+                return None
+            sys.settrace(glob)
+        return self
+
+    def __exit__(self, *a):
+        if self.S.symbolic:
+            self.S.interp.stmt_hook = self.prev
+        else:
+            import sys
+            sys.settrace(self.prevtrace)
+        return False
+
+
 class _Base:
     symbolic = False
+
+    def preempting(self, fn, lineno, action):
+        return _Preempt(self, fn, lineno, action)
 
     # helpers usable from harnesses in both modes
     And = staticmethod(And)
